@@ -30,7 +30,15 @@ def main():
                         if op == "read": got = f.read(e["a"]); r2 = ref.read(e["a"])
                         elif op == "readall": got = f.read(); r2 = ref.read()
                         elif op == "readinto":
-                            buf = bytearray(e["a"]); m = f.readinto(buf); got = bytes(buf[:m])
+                            # destination buffers of several shapes: plain bytes, items wider than one byte, a 2-d view
+                            na = e["a"]; shape = (hi + k) % 3
+                            if shape == 1 and na % 4 == 0 and na > 0:
+                                import array
+                                buf = array.array("I", bytes(na)); m = f.readinto(buf); got = buf.tobytes()[:m]
+                            elif shape == 2 and na % 2 == 0 and na > 0:
+                                raw2 = bytearray(na); m = f.readinto(memoryview(raw2).cast("B", (na // 2, 2))); got = bytes(raw2[:m])
+                            else:
+                                buf = bytearray(na); m = f.readinto(buf); got = bytes(buf[:m])
                             b2 = bytearray(e["a"]); m2 = ref.readinto(b2); r2 = bytes(b2[:m2])
                         elif op == "readline": got = f.readline(); r2 = ref.readline()
                         elif op == "tell": got = f.tell(); exp = e["from"]; r2 = ref.tell()
